@@ -1417,3 +1417,225 @@ CONSTRAINT Constraint
         report.sample({'project': cfgd, 'real_order': obs['order'], 'outcome': obs['outcome']}, limit=8)
     report.coverage['distinct_nontrivial'] += len(nontrivial)
     return len(records), len(chosen)
+
+
+# ---------------------------------------------------------------------------
+# C01 / C02: Schema.tla + fresh-creation oracle / row reference
+
+def _schema_cfg(maxlen, start, alpha):
+    from .tlc import write_cfg
+    return write_cfg('MC_Schema_%d_%d_%d.cfg' % (maxlen, start, alpha), '''
+SPECIFICATION Spec
+CONSTANTS
+  MaxLen = %d
+  StartId = %d
+  AlphaId = %d
+  Mergeable = %s
+  EmitRecords = TRUE
+CONSTRAINT SConstraint
+''' % (maxlen, start, alpha, _code_mergeable()))
+
+
+def _schema_space(tier):
+    if tier == 'quick':
+        return [(2, 1, 1), (2, 2, 1), (2, 4, 4), (2, 5, 6), (2, 2, 3)]
+    return [(3, 1, 1), (3, 2, 1), (3, 4, 4), (3, 5, 6), (3, 2, 3), (4, 3, 2), (4, 3, 5)]
+
+
+def _schema_check(prop, tier):
+    import random
+    from . import djsetup
+    djsetup.setup()
+    from .absmodel import ALT_NAMES, norm_mutation, short
+    from .common import seed
+    from .engines import mutseq
+    from .tlc import run_tlc, require_ok
+    report = Report(prop, tier)
+    rng = random.Random(seed() * 999983 + (1 if prop == 'C01' else 2))
+    recs = []
+    for maxlen, start, alpha in _schema_space(tier):
+        res = require_ok(run_tlc('Schema', _schema_cfg(maxlen, start, alpha), workers=16, timeout=5400),
+                         'Schema.tla len<=%d start=%d alpha=%d' % (maxlen, start, alpha))
+        report.add_tlc('Schema len<=%d start=%d alpha=%d' % (maxlen, start, alpha), res.stats())
+        start_sig = _start_sig(start)
+        recs += [(r, start_sig) for r in res.records if r['seq']]
+    total = len(recs)
+    limit = 1500 if tier == 'quick' else 30000
+    if len(recs) > limit:
+        hot = [r for r in recs if r[0]['sviol'] or r[0]['hazards']]
+        cold = [r for r in recs if not (r[0]['sviol'] or r[0]['hazards'])]
+        rng.shuffle(hot)
+        rng.shuffle(cold)
+        hot = hot[:limit // 3]
+        recs = hot + cold[:limit - len(hot)]
+    jobs = []
+    for i, (rec, start_sig) in enumerate(recs):
+        names_idx = i % (len(ALT_NAMES) if tier == 'thorough' else 2)
+        jobs.append((rec, start_sig, names_idx, 'single' if i % 3 else 'each', True, True))
+    observations = mutseq.observe_many(jobs)
+    nontrivial = set()
+    unavailable = 0
+    herr = 0
+    for (rec, start_sig, names_idx, split, _e, _f), obs in zip(jobs, observations):
+        report.coverage['evaluations'] += 1
+        seq = [norm_mutation(m) for m in rec['seq']]
+        label = [short(m) for m in seq]
+        if obs is None or obs.get('harness_error'):
+            herr += 1
+            if herr <= 3:
+                report.notes.append('harness error: %s' % (obs or {}).get('harness_error'))
+            continue
+        report.coverage['traces_validated_against_impl'] += 1
+        if len(seq) >= 2:
+            nontrivial.add(json_key(seq, rec['start']))
+        hazards = sorted(rec.get('hazards') or [])
+        base = {'sequence': label, 'start': rec['start'], 'names': names_idx, 'split': split,
+                'abstract_seq': seq, 'design_violations': rec['sviol']}
+        if prop == 'C01':
+            fails, available = mutseq.c01_failures(rec, obs)
+            if not available:
+                unavailable += 1
+                continue
+            for cls, which, detail, kinds in fails:
+                fp = {'class': cls, 'pipeline': which, 'hazards': hazards,
+                      'design_predicted': bool(rec['sviol']),
+                      'optimiser_predicted': bool(set(rec['oviol']) - {'OptLeavesDefsIntact'})
+                      if which != 'ref' else False}
+                if kinds:
+                    fp['kinds'] = kinds
+                report.fail(fp, dict(base, observed=detail))
+        else:
+            for cls, which, detail, kinds in mutseq.c02_failures(rec, obs):
+                fp = {'class': cls, 'pipeline': which, 'hazards': hazards, 'kinds': kinds,
+                      'optimiser_predicted': bool(set(rec['oviol']) - {'OptLeavesDefsIntact'})
+                      if which != 'ref' else False}
+                report.fail(fp, dict(base, observed=detail))
+            if obs.get('rows_error'):
+                report.notes.append('row reference error: %s' % obs['rows_error'][-200:])
+        report.sample({'sequence': label, 'start': rec['start'],
+                       'fresh_diff_bat': obs.get('fresh_diff_bat'),
+                       'rows_diff_bat': obs.get('rows_diff_bat'),
+                       'pipelines': {k: obs.get(k) for k in ('ref', 'bat', 'evo')}})
+    report.coverage['distinct_nontrivial'] = len(nontrivial)
+    report.coverage['exhaustive'] = (len(recs) == total and herr == 0)
+    report.coverage['rule'] = (
+        'TLC enumerates every simulation-valid mutation sequence up to the length bound over the start '
+        'signatures and alphabets of Optimizer.tla/Schema.tla (relations, unique_together, unique and '
+        'indexed columns) and checks SchemaIsFresh / UntouchedTablesEqual / Realisable on the design; '
+        '%d of %d sequences were executed on real SQLite databases (index bookkeeping scanned from the '
+        'database) through three pipelines and compared with %s. Non-trivial = length >= 2; distinct = '
+        'distinct (start, sequence). %d cases had no usable oracle (models not renderable).'
+        % (len(recs), total,
+           'the schema Django creates from scratch for the evolved models' if prop == 'C01'
+           else 'the reference data-flow of the rows present before the evolution', unavailable))
+    if herr > len(jobs) // 10:
+        from .common import machinery_failure
+        machinery_failure('too many harness errors (%d of %d)' % (herr, len(jobs)))
+    report.assumptions += ['row values come from a fixed palette incl. NULL, empty string, quotes, percent signs, negative numbers',
+                           'a fresh-creation oracle is used only if the rendered models have an empty diff with the evolved signature']
+    return report.finish()
+
+
+def c01(tier, replay=None):
+    return _schema_check('C01', tier)
+
+
+def c02(tier, replay=None):
+    return _schema_check('C02', tier)
+
+
+REGISTRY.update({'C01': c01, 'C02': c02})
+
+
+def c11(tier, replay=None):
+    import json as _json
+    from . import djsetup
+    djsetup.setup()
+    from .engines import refs
+    from .tlc import run_tlc, require_ok, write_cfg
+    report = Report('C11', tier)
+    maxlen = 2 if tier == 'quick' else 3
+    # the transcription as the code is: does RenameAppLabel rewrite references?
+    probe = refs.replay({'psig0': {'p': {'A': {'id': {'kind': 'pk', 'rel': []}}},
+                                   'q': {'C': {'id': {'kind': 'pk', 'rel': []},
+                                               'r': {'kind': 'FK', 'rel': ['p', 'A']}}}},
+                         'seq': [{'k': 'RenApp', 'app': 'p', 'n': 'r'}]})
+    fixed = bool(probe.get('final', {}).get('q', {}).get('C', {}).get('r') == ['r', 'A'])
+    report.notes.append('binding: AppLabelFixed = %s (probed on the real RenameAppLabel)' % fixed)
+    cfg = write_cfg('MC_Refs_%d.cfg' % maxlen, '''
+SPECIFICATION Spec
+CONSTANTS
+  MaxLen = %d
+  EmitRecords = TRUE
+  AppLabelFixed = %s
+CONSTRAINT Constraint
+''' % (maxlen, 'TRUE' if fixed else 'FALSE'))
+    res = require_ok(run_tlc('Refs', cfg, workers=16, timeout=3000), 'Refs.tla')
+    report.add_tlc('Refs (all relation assignments, sequences <= %d)' % maxlen, res.stats())
+    # the design (repaired) must satisfy the invariant and the action property
+    dcfg = write_cfg('MC_Refs_design.cfg', '''
+SPECIFICATION Spec
+CONSTANTS
+  MaxLen = 2
+  EmitRecords = FALSE
+  AppLabelFixed = TRUE
+CONSTRAINT Constraint
+INVARIANT NoDangling
+PROPERTY RenameRewritesAll
+''')
+    dres = run_tlc('Refs', dcfg, workers=16, timeout=3000, allow_violation=True)
+    report.add_tlc('Refs design: NoDangling + RenameRewritesAll', dres.stats())
+    if dres.invariant_violated or dres.error:
+        report.fail({'class': 'design-invariant', 'invariant': dres.invariant_violated},
+                    {'tlc': dres.output[-2000:]})
+    records = res.records
+    if tier == 'quick' and len(records) > 12000:
+        import random
+        from .common import seed
+        rng = random.Random(seed() + 5)
+        hot = [r for r in records if r['dangling']]
+        cold = [r for r in records if not r['dangling']]
+        rng.shuffle(cold)
+        records = hot[:4000] + cold[:8000]
+    nontrivial = set()
+    for rec in records:
+        report.coverage['evaluations'] += 1
+        out = refs.replay(rec)
+        label = ['%s(%s)' % (s['k'], ','.join(str(s[x]) for x in ('app', 'm', 'f', 'n') if x in s))
+                 for s in rec['seq']]
+        if 'error' in out:
+            # the model accepted the step, the code rejected it: a rejected
+            # sequence is outside "accepted sequences"; report as drift
+            report.spec_drift('Refs.tla accepts %s, code rejects: %s' % (label, out['error']))
+            continue
+        report.coverage['traces_validated_against_impl'] += 1
+        if len(rec['seq']) >= 2:
+            nontrivial.add(_json.dumps([rec['psig0'], rec['seq']], sort_keys=True))
+        for i, st in enumerate(out['steps']):
+            if st['dangling']:
+                report.fail({'class': 'dangling-reference', 'after': st['step']['k'],
+                             'predicted_by_spec': bool(rec['dangling'])},
+                            {'start': rec['psig0'], 'sequence': label, 'step': i,
+                             'dangling': st['dangling']})
+                break
+        want = refs.spec_projection(rec['psig'])
+        have = {a: ms for a, ms in out['final'].items()}
+        want = {a: ms for a, ms in want.items() if ms or a in have}
+        if want != {a: ms for a, ms in have.items() if ms or a in want}:
+            report.spec_drift('final references differ for %s' % label,
+                              {'spec': want, 'code': have})
+        report.sample({'sequence': label, 'final_references': out['final']})
+    report.coverage['distinct_nontrivial'] = len(nontrivial)
+    report.coverage['exhaustive'] = len(records) == len(res.records)
+    report.coverage['rule'] = (
+        'TLC enumerates every assignment of relation targets (FK from each of three models in two apps, '
+        'M2M from one) x every sequence up to length %d of RenameModel, RenameAppLabel, RenameField (incl. '
+        'the primary key), DeleteField, DeleteModel, DeleteApplication; every behaviour is replayed into '
+        'the real simulate() methods on a real ProjectSignature (model names that are prefixes of each '
+        'other, app labels likewise) and the signature walked after every step. Non-trivial = length >= 2.'
+        % maxlen)
+    report.assumptions += ['signature-level replay; the database-level part (foreign_key_check after execution) is covered by C01']
+    return report.finish()
+
+
+REGISTRY.update({'C11': c11})
